@@ -82,10 +82,17 @@ func classify(c Case) (labels []string, nontrivial bool) {
 	return labels, maxsteps >= 2 && feature
 }
 
-// valueOf: the free tree's values; a node named "ll" is a leaf-list with two values (as the model has it).
+// valueOf: the free tree's values; a node named "ll" is a leaf-list with two values, a node named "le" a leaf-list
+// that holds nothing (as the model has it).
 func valueOf(id tree.ID) (xpath.Datum, error) {
 	if IsLeafList(id) {
 		return xpath.NewDatumSliceDatum([]xpath.Datum{xpath.NewLiteralDatum(tree.DefaultValue(id) + "#1"), xpath.NewLiteralDatum(tree.DefaultValue(id) + "#2")}), nil
+	}
+	if IsEmptyLeafList(id) {
+		if len(id)%2 == 0 {
+			return xpath.NewDatumSliceDatum([]xpath.Datum{}), nil
+		}
+		return xpath.NewDatumSliceDatum(nil), nil
 	}
 	return xpath.NewLiteralDatum(tree.DefaultValue(id)), nil
 }
@@ -197,7 +204,11 @@ func checkCase(c Case) fw.Outcome {
 			}
 		}
 		// value of the expression
-		gs, _ := res.GetLiteralResult()
+		gs, gerr := res.GetLiteralResult()
+		if gerr != nil {
+			out.Violation = fmt.Sprintf("the run reports no error, reading its value does: %v\n%s", gerr, describe())
+			return out
+		}
 		if ws := xp.ToStr(want); gs != ws {
 			out.Violation = fmt.Sprintf("value differs: got %q want %q\n%s", gs, ws, describe())
 			return out
